@@ -84,14 +84,21 @@ mutual
       (formatTypes cfg gens ts st).bind fun (ss, st) => .ok (s :: ss, st)
 end
 
-/-- `write_comments`: `/** one */` or a ` * `-joined block -/
+/-- `c.replace("*/", "*\\/")`: a `*/` in the doc text is written as `*\/` -/
+def escapeDoc : Str → Str
+  | [] => []
+  | c :: r =>
+    if c = '*' ∧ r.head? = some '/' then '*' :: '\\' :: escapeDoc r
+    else c :: escapeDoc r
+
+/-- `write_comments`: `/** one */` or a ` * `-joined block, `*/` escaped -/
 def comments (indent : Nat) (cs : List Str) : Str :=
   match cs with
   | [] => []
-  | [c] => tabs indent ++ s%"/** " ++ c ++ s%" */" ++ nl
+  | [c] => tabs indent ++ s%"/** " ++ escapeDoc c ++ s%" */" ++ nl
   | _ =>
     tabs indent ++ s%"/**\n" ++ tabs indent ++ s%" * " ++
-      Str.intercalate (nl ++ tabs indent ++ s%" * ") cs ++ nl ++ tabs indent ++ s%" */" ++ nl
+      Str.intercalate (nl ++ tabs indent ++ s%" * ") (cs.map escapeDoc) ++ nl ++ tabs indent ++ s%" */" ++ nl
 
 /-- `typescript_property_aware_rename`: a key containing `-` is written as a quoted property -/
 def propertyName (name : Str) : Str := if name.contains '-' then debugStr name else name
